@@ -16,12 +16,14 @@
 //!   cost  d=<f32>                                             -> bd bi pd pi   (box direct/inverted, point direct/inverted)
 //!   gate  mode=iou|maha mc= thr= a=ubox(candidate) b=ubox(track) [hist=ubox;ubox..] -> far= iou=|N dist=|N res=X|S:N|S:<bits>
 //!   baked lu= mi= ep=N|<usize>                                -> st=W|P|R|E
+//!   vis   kind=E|C t=<f32> d=<f32>                            -> ok=0|1 w=<f32>   (VisualSortMetricType::is_ok / distance_to_weight)
 use similari::track::{MetricQuery, Observation, ObservationAttributes, ObservationMetric, TrackStatus};
 use similari::trackers::epoch_db::EpochDb;
 use similari::trackers::kalman_prediction::TrackAttributesKalmanPrediction;
 use similari::trackers::sort::metric::SortMetric;
 use similari::trackers::sort::{PositionalMetricType, SortAttributes, SortAttributesOptions};
 use similari::trackers::spatio_temporal_constraints::SpatioTemporalConstraints;
+use similari::trackers::visual_sort::metric::VisualSortMetricType;
 use similari::utils::bbox::{normalize_angle, BoundingBox, Universal2DBox};
 use similari::utils::kalman::kalman_2d_box::Universal2DBoxKalmanFilter;
 use similari::utils::kalman::kalman_2d_point::Point2DKalmanFilter;
@@ -303,6 +305,11 @@ fn ev_baked(lu: usize, mi: usize, ep: Option<usize>, has_db: bool) -> String {
         Err(_) => "E",
     };
     format!("baked lu={} mi={} ep={} db={} st={}", lu, mi, ep.map(|e| e.to_string()).unwrap_or_else(|| "N".into()), b01(has_db), st)
+}
+
+fn ev_vis(kind: &str, t: f32, d: f32) -> String {
+    let k = if kind == "E" { VisualSortMetricType::Euclidean(t) } else { VisualSortMetricType::Cosine(t) };
+    format!("vis kind={} t={} d={} ok={} w={}", kind, b(t), b(d), b01(k.is_ok(d)), b(k.distance_to_weight(d)))
 }
 
 // ---------------------------------------------------------------------------------------------------------
@@ -592,6 +599,18 @@ fn gen(seed: u64, n: usize) {
         cm.c = c.c;
         println!("{}", ev_gate("maha", mc, thr, &cm, &hb, &hist));
     }
+    // ---- VisualSortMetricType: thresholds and distances on and around each other
+    for i in 0..n {
+        let kind = if i % 2 == 0 { "E" } else { "C" };
+        let t = if kind == "E" { mag(&mut r, -2.0, 2.0, 12) } else { (r.range(-64, 64) as f32) / 64.0 };
+        for s in -2i64..=2 {
+            println!("{}", ev_vis(kind, t, ulp_step(t, s)));
+        }
+        println!("{}", ev_vis(kind, t, t * 0.5));
+        println!("{}", ev_vis(kind, t, t * 2.0 + 0.125));
+        println!("{}", ev_vis(kind, t, -t));
+        println!("{}", ev_vis(kind, t, (r.unit_f64() * 2.0 - 1.0) as f32));
+    }
     // ---- EpochDb::baked: small exhaustive grid
     for lu in 0..5usize {
         for mi in 0..4usize {
@@ -639,6 +658,7 @@ fn replay(path: &str) {
                 let hist: Vec<UB> = if g("hist") == "-" || g("hist").is_empty() { vec![] } else { g("hist").split(';').map(UB::parse).collect() };
                 ev_gate(&g("mode"), pf(&g("mc")), pf(&g("thr")), &UB::parse(&g("a")), &UB::parse(&g("b")), &hist)
             }
+            "vis" => ev_vis(&g("kind"), pf(&g("t")), pf(&g("d"))),
             "baked" => ev_baked(g("lu").parse().unwrap(), g("mi").parse().unwrap(), if g("ep") == "N" { None } else { Some(g("ep").parse().unwrap()) }, g("db") == "1"),
             _ => format!("# unknown record kind: {}", kind),
         };
